@@ -17,7 +17,10 @@ extern crate getrandom;
 
 pub mod env;
 pub mod h_c01;
+#[cfg(feature = "gibbs")]
 pub mod h_c05;
+#[cfg(feature = "gibbs")]
+pub mod h_gibbs;
 pub mod h_c07;
 pub mod h_c08;
 pub mod h_c09;
@@ -270,8 +273,11 @@ pub fn harness_by_name(name: &str) -> Option<fn(&mut Src)> {
             return Some(*f);
         }
     }
+    #[cfg(feature = "gibbs")]
+    if let Some(f) = h_c05::by_name(name).or_else(|| h_gibbs::by_name(name)) {
+        return Some(f);
+    }
     h_c01::by_name(name)
-        .or_else(|| h_c05::by_name(name))
         .or_else(|| h_c07::by_name(name))
         .or_else(|| h_c08::by_name(name))
         .or_else(|| h_c09::by_name(name))
